@@ -32,7 +32,7 @@ def base_event(part):
     return {"part": part, "kind": "opt", "flags": 0, "hasShort": False, "dflt": "none", "role": "long", "name": [],
             "nonStr": False, "type": "str", "nullable": False, "isNone": False, "text": [], "hasF": False, "fnum": 0,
             "fden": 1, "obs": {"accepted": False, "cls": "", "nflags": 0, "dkind": "none", "preds": dict(NOPREDS),
-                               "res": dict(NORES), "reset": "n/a", "again": "n/a"}}
+                               "res": dict(NORES), "reset": "n/a", "again": "n/a", "kept": []}}
 
 
 _FALSY = [0, "", False, 0.0]
@@ -96,6 +96,9 @@ def observe_name(role, name, non_str, cls_name):
             (Option if cls_name == "Option" else CommandOption)(val, "o")
         elif role == "short":
             (Option if cls_name == "Option" else CommandOption)("option", val)
+        elif role == "alias":
+            o = CommandOption("option", None, [val])
+            ev["obs"]["kept"] = name_chars((o.long_aliases + o.short_aliases)[0]) if len(o.long_aliases + o.short_aliases) == 1 else ["?"]
         else:
             Argument(val)
         ev["obs"]["accepted"] = True
@@ -210,8 +213,14 @@ def run(ctx):
         raise T.MachineryError("names model emitted %d" % len(recs))
     for m in recs:
         name = "".join(_UNINV.get(c, c) for c in m["name"])
-        for cls_name in ("Option", "CommandOption") if m["role"] != "arg" else ("Argument",):
+        for cls_name in ("CommandOption",) if m["role"] == "alias" else ("Option", "CommandOption") if m["role"] != "arg" else ("Argument",):
             ev = observe_name(m["role"], name, False, cls_name)
+            if m["role"] == "alias":   # must be accepted / may be accepted / must be rejected; anything else is decided by ElementsTrace
+                acc = ev["obs"]["accepted"]
+                ok = (acc or not m["ok"]) and (m["may"] or not acc) and (acc or ev["obs"]["cls"] == "ValueError") and \
+                    (not (acc and m["ok"]) or ev["obs"]["kept"] == [c for c in m["name"] if True][len(m["name"]) - len(ev["obs"]["kept"]):])
+                keep(ev, {"part": "name", "role": "alias", "name": name, "nonStr": False, "cls": cls_name}, ok)
+                continue
             ok = ev["obs"]["accepted"] == m["ok"] and (m["ok"] or ev["obs"]["cls"] == "ValueError")
             keep(ev, {"part": "name", "role": m["role"], "name": name, "nonStr": False, "cls": cls_name}, ok)
         if name:
@@ -270,10 +279,10 @@ def run(ctx):
             ev = observe_conv(ty, rng.random() < 0.5, is_none, "" if is_none else text, via)
             case = {"part": "conv", "type": ty, "nullable": ev["nullable"], "isNone": is_none, "text": "" if is_none else text, "via": via}
         else:  # longer names
-            role = rng.choice(["long", "short", "arg"])
+            role = rng.choice(["long", "short", "arg", "alias"])
             name = rng.choice(["", "-", "--"]) + "".join(rng.choice(NAME_CHARS) for _ in range(rng.randint(0, 9)))
-            non_str = rng.random() < 0.05
-            cls_name = "Argument" if role == "arg" else rng.choice(["Option", "CommandOption"])
+            non_str = rng.random() < 0.05 and role != "alias"   # (a non-string alias raises TypeError: no clause speaks of it)
+            cls_name = "Argument" if role == "arg" else "CommandOption" if role == "alias" else rng.choice(["Option", "CommandOption"])
             ev = observe_name(role, name, non_str, cls_name)
             case = {"part": "name", "role": role, "name": name, "nonStr": non_str, "cls": cls_name}
         traces.append([ev])
